@@ -106,6 +106,16 @@ HISTORIES = {
                    ("open", "m.oal", "let t = {} & num;\n")],
         "probe": ("main.oal", {"line": 2, "character": 18}),
     },
+    # a document's version numbers start again when it is opened again: edits of the second session are edits like any other
+    "edit-close-reopen-edit": {
+        "disk": {"main.oal": "let a = num;\nlet b = str;\nres / on get -> <{ 'x a }>;\n"},
+        "script": [("open", "main.oal", "let a = num;\nlet b = str;\nres / on get -> <{ 'x a }>;\n"), ("sync", "main.oal"),
+                   ("change", "main.oal", [(R(0, 0, 0, 0), "// note\n")]), ("change", "main.oal", [(R(0, 0, 1, 0), "")]), ("change", "main.oal", [(R(0, 0, 0, 0), " ")]),
+                   ("change", "main.oal", [(R(0, 0, 0, 1), "")]), ("sync", "main.oal"), ("close", "main.oal"),
+                   ("open", "main.oal", "let a = num;\nlet b = str;\nres / on get -> <{ 'x a }>;\n"),
+                   ("change", "main.oal", [(R(2, 22, 2, 23), "b")]), ("sync", "main.oal"), ("change", "main.oal", [(R(3, 0, 3, 0), "let c = zzz;\n")])],
+        "probe": ("main.oal", {"line": 2, "character": 22}),
+    },
     "module-error-close-and-reopen": {
         "disk": {"main.oal": 'use "m.oal";\nres / on get -> <t>;\n', "m.oal": "let t = {};\n"},
         "script": [("open", "main.oal", 'use "m.oal";\nres / on get -> <t>;\n'), ("open", "m.oal", "let t = {;\n"), ("sync", "main.oal"),
@@ -478,6 +488,7 @@ def check():
                     structural("Workspace::diagnostics: the initial entry of a document is the empty list",
                                ms.proj(p.ret, ("f", 1), E)[0] == "app" and "Default::default" in ms.proj(p.ret, ("f", 1), E)[1])
         store_lemmas(o, ML, E, structural, (f_opn, f_cls))
+        diagnostics_loop_lemma(o, ML, E, structural)
     except KeyError as e:
         o.inconc(str(e))
 
@@ -576,6 +587,41 @@ def store_lemmas(o, ML, E, structural, fs=None):
             structural("Workspace::close: forgets the document (on every path)", len(rm) == 1 and rm[0][2][0] == docs)
     if n == 0:
         o.inconc("Workspace::close: no returning path")
+
+
+def diagnostics_loop_lemma(o, ML, E, structural):
+    """Every accumulated error becomes a published diagnostic: the errors taken by diagnostics() are consumed by a plain into_iter
+    (no adaptor that drops some), and one arbitrary iteration of that loop turns the error it was offered into a diagnostic and
+    files it under the error's own document (shared with C13: 'at least one diagnostic exactly when they fail')."""
+    f_dia = ML.one(r"lsp::<impl[^>]*>::diagnostics$")
+    ex = mirlib.executor([ML])
+    n = 0
+    ok_iter = ok_body = True
+    for p in ex.run(f_dia, arg_names=["self"]):
+        if p.kind != "backedge":
+            continue
+        loops = [i for i, e in enumerate(p.events) if e[0] == "loop"]
+        tk = [e for e in p.calls() if e[1] == "Option::take"]
+        if not tk or not loops:
+            continue                  # the first loop (the reset of known documents)
+        n += 1
+        pre = [e for e in p.events[:loops[-1]] if e[0] == "call"]
+        chain = [e for e in pre if any(t == tk[0][3] for a in e[2] for t in ms.subterms(a))]
+        tail = [e for e in p.events[loops[-1] + 1:] if e[0] == "call"]
+        nx = [e for e in tail if e[1].endswith("Iterator::next")]
+        ok_iter = ok_iter and bool(chain) and all(re.search(r"(unwrap_or_default|unwrap_or|unwrap_or_else|IntoIterator::into_iter)$", e[1]) for e in chain) and \
+            len(nx) == 1 and nx[0][1].startswith("IntoIter.")
+        if len(nx) != 1:
+            ok_body = False
+            continue
+        item = ms.proj(ms.proj(nx[0][3], ("v", "Some"), E), ("f", 0), E)
+        dg = [e for e in tail if e[1] == "Workspace::diagnostic" and any(t == item for a in e[2] for t in ms.subterms(a))]
+        filed = [e for e in tail if e[1] in ("Vec::push", "VacantEntry::insert", "HashMap::insert", "Entry::or_insert", "Entry::or_default", "Entry::or_insert_with")]
+        ok_body = ok_body and len(dg) == 1 and len(filed) >= 1
+    structural("Workspace::diagnostics: the accumulated errors are consumed by a plain into_iter (no adaptor that drops some)", ok_iter and n >= 1,
+               "Workspace::diagnostics does not go through every accumulated error")
+    structural("Workspace::diagnostics: one iteration turns the error it was offered into a diagnostic and files it", ok_body and n >= 1,
+               "Workspace::diagnostics: an iteration over the errors files no diagnostic for its error")
 
 
 def change_fields(ML):
